@@ -224,10 +224,15 @@ type World struct {
 	App    *c4eapp.App
 	Header tmproto.Header // header of the currently open block
 	T0     time.Time
+	DB     dbm.DB // the application's database (a restart builds a new application over it)
 }
 
-func newApp() *c4eapp.App {
-	return c4eapp.New(log.NewNopLogger(), dbm.NewMemDB(), nil, true, map[int64]bool{}, c4eapp.DefaultNodeHome, 0,
+func newApp() *c4eapp.App { return reopenApp(dbm.NewMemDB()) }
+
+// reopenApp builds an application object over db and loads the latest committed version (an empty
+// database gives a fresh application).
+func reopenApp(db dbm.DB) *c4eapp.App {
+	return c4eapp.New(log.NewNopLogger(), db, nil, true, map[int64]bool{}, c4eapp.DefaultNodeHome, 0,
 		appparams.EncodingConfig(c4eapp.MakeEncodingConfig()), simapp.EmptyAppOptions{})
 }
 
@@ -238,13 +243,14 @@ func NewWorld(genesis []byte, t0 time.Time) *World {
 }
 
 func NewWorldAt(genesis []byte, t0 time.Time, initialHeight int64) *World {
-	app := newApp()
+	db := dbm.NewMemDB()
+	app := reopenApp(db)
 	app.InitChain(abci.RequestInitChain{
 		ChainId: ChainID, Time: t0, InitialHeight: initialHeight,
 		ConsensusParams: simapp.DefaultConsensusParams, AppStateBytes: genesis,
 	})
 	app.Commit()
-	w := &World{App: app, T0: t0}
+	w := &World{App: app, T0: t0, DB: db}
 	w.Header = tmproto.Header{ChainID: ChainID, Height: app.LastBlockHeight() + 1, Time: t0}
 	if initialHeight > 1 && w.Header.Height < initialHeight {
 		w.Header.Height = initialHeight
